@@ -524,7 +524,9 @@ impl Error {
                 if location.1 >= contents.data().len() {
                     token = "<end of file>";
                 } else {
-                    token = &contents.data()[location.0..location.1];
+                    // at end of input the location is one byte long and may lie inside a
+                    // multi-byte whitespace character
+                    token = contents.data().get(location.0..location.1).unwrap_or("<end of file>");
                 }
                 let expected_formatted = format_token_list(expected);
                 error(output, &format!("Unexpected token '{}', expected {}:",
